@@ -102,6 +102,8 @@ fn cmd_drive(m: &BTreeMap<String, String>) {
         marathon: get(m, "marathon", 0),
         flood: get(m, "flood", 0),
         warp: get(m, "warp", 0),
+        pure: get(m, "pure", 0),
+        pure_factor: get(m, "pure-factor", 5),
         warp_lib: m.get("warp-lib").map(PathBuf::from),
         dump_sessions: get(m, "dump-sessions", 0),
         out: out.clone(),
@@ -169,6 +171,7 @@ fn cmd_session(m: &BTreeMap<String, String>) {
         min_steps: get(m, "min-steps", 50),
         max_steps: get(m, "max-steps", 2000),
         sweep_n: get(m, "sweep-n", 16),
+        pure_factor: get(m, "pure-factor", 5),
     };
     let (plan, meta) = session::plan_session(&params, &pool);
     if m.contains_key("plan-only") {
